@@ -5,8 +5,8 @@ V = os.path.dirname(os.path.dirname(os.path.abspath(__file__)))
 rows = []
 notes = json.load(open(os.path.join(V, 'seeded', 'NOTES.json'))) if os.path.exists(os.path.join(V, 'seeded', 'NOTES.json')) else {}
 fpass = {}
-if os.path.exists(os.path.join(V, 'seeded', 'FIRST_PASS_R3.json')):
-    fpass = json.load(open(os.path.join(V, 'seeded', 'FIRST_PASS_R3.json')))['first_pass']
+for fn in sorted(glob.glob(os.path.join(V, 'seeded', 'FIRST_PASS_R*.json'))):
+    fpass.update(json.load(open(fn))['first_pass'])
 for d in sorted(glob.glob(os.path.join(V, 'seeded', '*', 'meta.json'))):
     m = json.load(open(d))
     name = os.path.basename(os.path.dirname(d))
